@@ -32,6 +32,14 @@ func RunInit(args []string, opts GlobalOptions) error {
 		return errors.New("usage: ergo init [dir]")
 	}
 	target := filepath.Join(dir, dataDirName)
+	// Run inside (or on) a store's own .ergo directory, init repairs that
+	// store: creating .ergo/.ergo would give the directory a second, empty
+	// store of its own, which every command started there would then use.
+	if abs, err := filepath.Abs(dir); err == nil && filepath.Base(abs) == dataDirName {
+		if info, err := os.Stat(abs); err == nil && info.IsDir() {
+			target = dir
+		}
+	}
 	if err := os.MkdirAll(target, 0755); err != nil {
 		return err
 	}
